@@ -56,7 +56,7 @@ func (lb *LoadBalancer) ListBackends() []BackendInfo {
 			Name:              b.Name,
 			Address:           b.URL.String(),
 			Healthy:           b.IsHealthy,
-			ActiveConnections: b.ActiveConnections,
+			ActiveConnections: b.GetActiveConnections(), // the counter is updated atomically, not under b.Mutex
 			Weight:            b.Weight,
 		}
 		b.Mutex.RUnlock()
